@@ -37,6 +37,17 @@ func perArgShape(f *ssa.Function) (shape, ssa.Value, bool) {
 			if !ok {
 				continue
 			}
+			// acc = binary.LittleEndian.AppendUintN(acc, v)
+			if base, fields, ok := appendUint(&call.Call); ok {
+				if _, isPhi := base.(*ssa.Phi); isPhi {
+					var src ssa.Value
+					for _, e := range fields {
+						src = e.V
+					}
+					return fields, src, true
+				}
+				continue
+			}
 			bi, ok := call.Call.Value.(*ssa.Builtin)
 			if !ok || bi.Name() != "append" || len(call.Call.Args) != 2 {
 				continue
